@@ -36,10 +36,13 @@ def isLangMap (I : Impl) (plan : List Step) (j : J) : Bool :=
 /-- the members a property contributes to the re-serialised map -/
 def rtProp (I : Impl) (rec : String → J → J) (p : IProp) (m : J) : List (String × J) :=
   if p.functional then
-    match m.get? p.name with
+    let found : Option J := match m.get? p.name with
+      | some x => some x
+      | none => if p.natLang then m.get? (p.name ++ "Map") else none
+    match found with
     | none => []
     | some .null => []
-    | some x => [(p.name, rtElem I rec p.plan x)]
+    | some x => [(if p.natLang && isLangMap I p.plan x then p.name ++ "Map" else p.name, rtElem I rec p.plan x)]
   else
     let found : Option J := match m.get? p.name with
       | some x => some x
@@ -63,7 +66,8 @@ def rtTypeWith (I : Impl) (rec : String → J → J) (k : String) (j : J) : J :=
   match I.findType k with
   | none => j
   | some t =>
-    let base : J := .obj [("type", .str k)]
+    -- a typeless type (security PublicKey) writes no `type` of its own
+    let base : J := if t.typeless then .obj [] else .obj [("type", .str k)]
     let known := t.serProps.flatMap fun pn => match I.findProp pn with
       | some p => rtProp I rec p j
       | none => []
@@ -100,6 +104,19 @@ def ctxWith (I : Impl) (rec : String → J → List String) (k : String) (j : J)
 def ctx (I : Impl) : Nat → String → J → List String
   | 0, _, _ => []
   | n + 1, k, j => ctxWith I (ctx I n) k j
+
+/-- `streams.Serialize` afterwards deletes every `@context` in child maps — maps that are member values of maps,
+recursively; maps inside arrays are not visited -/
+def cleanCtx : Nat → J → J
+  | 0, j => j
+  | n + 1, .obj kvs => .obj (kvs.map fun kv => match kv.2 with
+      | .obj inner => (kv.1, cleanCtx n ((J.obj inner).erase "@context"))
+      | v => (kv.1, v))
+  | _, j => j
+
+/-- the whole document: the typed value re-serialised, children's `@context` deleted (the top-level `@context` is
+computed separately by `ctx`) -/
+def rtDoc (I : Impl) (n : Nat) (k : String) (j : J) : J := cleanCtx n (rt I n k j)
 
 /-- the type name `ToType` dispatches on: the first entry of `type` that names a known type -/
 def docType (I : Impl) (j : J) : Option String :=
